@@ -31,9 +31,9 @@ pub(crate) fn migrate_raw(kv: &mut Kv, msg: MigrateMsg) -> Result<(), String> {
     let api = SimApi { prefix: PROTO_PREFIX };
     let q = NoQuerier;
     let deps = DepsMut { storage: kv, api: &api, querier: QuerierWrapper::new(&q) };
-    match guarded(|| staking::contract::migrate(deps, env(), msg)) {
+    match guarded(|| staking::contract::migrate(deps, env(), msg).map_err(|e| e.to_string())) {
         Err(_) => Err("PANIC".into()),
-        Ok(Err(e)) => Err(e.to_string()),
+        Ok(Err(e)) => Err(e),
         Ok(Ok(_)) => Ok(()),
     }
 }
